@@ -101,6 +101,10 @@ pub struct RunReport {
     pub schedule_hashes: Vec<u64>,
     /// digest of what this run observed (C12: transcripts), compared across worker processes
     pub digest: Option<u64>,
+    /// the event-log fingerprints of this run contain a real wall-clock reading (the `bench` command
+    /// measures its own nps with `Instant::now()`, outside every seam and outside C12): only `digest`
+    /// is compared across processes
+    pub digest_excludes_fingerprints: bool,
 }
 
 /// Which violation classes count against which property.
